@@ -96,6 +96,33 @@ CHECKS = {
             'Exhaustive over the bounded expression space on specification and implementation; metadata-only decoding shown independent of the data section.',
             'Trusted: TLC; MdQuery.tla; definitions/*.json as data for parameter names.',
             'DESIGN.md section 3 C17'),
+    'C09': (['Wiring.tla', 'FM94Tree.tla', 'FM94.tla'],
+            'TLA+ spec Wiring.tla (hierarchical view as a function of the walker output) with invariant TreeConserves model-checked by TLC on every catalogue behaviour; '
+            'every behaviour replayed: four real renderings, three converters back to flat JSON, real nested JSON compared node by node with the specification tree, '
+            'four encodings compared with the specification octets, CLI encode in subprocesses; sample files through the consume form + Wiring',
+            'TLC establishes conservation (every flat value exactly once, flat order recovered) on the specification for all explored structures; the implementation tree and '
+            'all format conversions are compared with the specification for each of them.',
+            'Trusted: TLC; Wiring.tla; the character-level layout of the text formats is exercised, not modelled.',
+            'DESIGN.md section 3 C09'),
+    'C14': (['Tables.tla', 'TablesMC.tla', 'TableSel.tla'],
+            'TLA+ specs Tables.tla/TablesMC.tla (Build/Flatten/Expand over the table files as data) model-checked by TLC over all descriptor lists up to length 5/6 '
+            '(FlattenBuildIsId, OwnershipCount, FactorIsClass31, SequencesExpand); every well-formed list replayed into template_from_ids; recorded shapes of longer lists, '
+            'every Table D/B entry of the selected versions and the version fall-back (TableSel.tla) validated against the library',
+            'Exhaustive over the bounded list space on both sides; exhaustive over the data of the selected table versions (thorough: all bundled ones).',
+            'Trusted: TLC; the reading of FM-94 94.5.4 in Build; table JSON files; references >= 2^31 not compared.',
+            'DESIGN.md section 3 C14'),
+    'C16': (['Query.tla', 'Wiring.tla', 'FM94Tree.tla'],
+            'TLA+ spec Query.tla (path evaluation with slices, replication envelopes, bare IDs, subset selectors) over Wiring.tla trees; TLC evaluates every path that exists in every '
+            'behaviour (depth 4/6) with every slice form at every position; each (message, subset, path) replayed into DataQuerent on interpreted and compiled decodes, compressed and uncompressed',
+            'The specification is the executable meaning of the path language; results are compared value by value (nested structure included) for every generated path.',
+            'Trusted: TLC; Query.tla/Wiring.tla; paths are generated from the specification tree.',
+            'DESIGN.md section 3 C16'),
+    'C18': (['Script.tla'],
+            'TLA+ spec Script.tla: reference semantics on fragment sequences vs character automaton, model-checked by TLC over all scripts of <=4/5 fragments; every script replayed into '
+            'process_embedded_query_expr / ScriptRunner; nesting-level laws validated by TLC on recorded query results of real messages',
+            'Exhaustive over the bounded fragment space on both sides; the level laws are checked by TLC on recorded implementation output (trace validation).',
+            'Trusted: TLC; Script.tla; escape-free literals.',
+            'DESIGN.md section 3 C18'),
     'C15': (['PathParser.tla', 'Trace_PathParser.tla'],
             'TLA+ spec PathParser.tla (documented grammar as recogniser + 9-state character automaton) model-checked by TLC over every '
             'string up to length 5/6 over a 12-symbol alphabet; TLC-emitted verdicts replayed into NodePathParser; recorded parser '
